@@ -97,6 +97,15 @@ func c12Keys(thorough bool) []keyForm {
 	return out
 }
 
+func c12Warmups() [][]ev.E {
+	return [][]ev.E{
+		{ev.EBD(), ev.EV(0), ev.EMap(), ev.EStr("a"), ev.EPInt(1), ev.EPInt(1), ev.ENull(), ev.EABegin(events.ArrayTypeString), ev.EChunk(1, false), ev.EData([]byte("b")), ev.ENull(), ev.EEnd(), ev.EED()},
+		{ev.EBD(), ev.EV(0), ev.EMap(), ev.EStr("a"), ev.EPInt(1), ev.EABegin(events.ArrayTypeString), ev.EChunk(5, true), ev.EData([]byte("hel")), ev.EData([]byte("lo")), ev.EChunk(3, false), ev.EData([]byte("a"))},
+		{ev.EBD(), ev.EV(0), ev.EMap(), ev.EABegin(events.ArrayTypeResourceID), ev.EChunk(3, true), ev.EData([]byte("a:b"))},
+		{ev.EBD(), ev.EV(0), ev.EList(), ev.EMap(), ev.EStr("a"), ev.EPInt(1), ev.EPInt(1), ev.ENull(), ev.ENInt(1), ev.ENull(), ev.EUID(uidA), ev.ETrue(), ev.EMap()},
+	}
+}
+
 func c12Run(c *fx.Ctx) {
 	keys := c12Keys(c.Thorough())
 	mcfg := rulesmodel.Config{}
@@ -130,6 +139,8 @@ func c12Run(c *fx.Ctx) {
 			return append(s, ev.EEnd(), ev.EED())
 		}},
 	}
+	var warmup []ev.E // non-nil: the validator is reused after these events and Reset()
+	warmTag := ""
 	run := func(ct container, ks ...keyForm) {
 		seq := ct.wrap(ks...)
 		forms := ""
@@ -145,7 +156,7 @@ func c12Run(c *fx.Ctx) {
 		if !collide {
 			forms = "no-collision"
 		}
-		r := lockstep(c, seq, nil, mcfg, "", func(e ev.E, ctx string) string { return fmt.Sprintf("%s:%s@%s", forms, e.K.String(), ct.name) })
+		r := lockstepW(c, warmup, seq, nil, mcfg, warmTag, func(e ev.E, ctx string) string { return fmt.Sprintf("%s:%s@%s", forms, e.K.String(), ct.name) })
 		c.Add("evaluations", 1)
 		if collide {
 			c.Add("colliding_cases", 1)
@@ -162,10 +173,10 @@ func c12Run(c *fx.Ctx) {
 		}
 		if !dc {
 			if collide && r.accepted {
-				c.Violation(fmt.Sprintf("duplicate-accepted:%s@%s", forms, ct.name), fmt.Sprintf("two keys denoting the same value are both accepted: [%s]", ev.Join(seq)), rwitness{Events: seq})
+				c.Violation(fmt.Sprintf("%sduplicate-accepted:%s@%s", warmTag, forms, ct.name), fmt.Sprintf("two keys denoting the same value are both accepted: [%s]", ev.Join(seq)), rwitness{Warmup: warmup, Events: seq})
 			}
 			if !collide && !r.accepted {
-				c.Violation(fmt.Sprintf("distinct-rejected:%s@%s", forms, ct.name), fmt.Sprintf("keys denoting different values rejected (%v): [%s]", r.err, ev.Join(seq)), rwitness{Events: seq})
+				c.Violation(fmt.Sprintf("%sdistinct-rejected:%s@%s", warmTag, forms, ct.name), fmt.Sprintf("keys denoting different values rejected (%v): [%s]", r.err, ev.Join(seq)), rwitness{Warmup: warmup, Events: seq})
 			}
 		}
 		if c.Index()%997 == 0 {
@@ -182,6 +193,26 @@ func c12Run(c *fx.Ctx) {
 			}
 		}
 	}
+	// the same pairs on a reused validator: after a complete document, and after documents abandoned inside a chunked
+	// string key / resource-ID key / a map with recorded keys, each followed by Reset()
+	for wi, w := range c12Warmups() {
+		warmup, warmTag = w, []string{"after-complete-doc-and-reset:", "after-doc-aborted-in-string-key:", "after-doc-aborted-in-rid-key:", "after-doc-aborted-in-map:"}[wi]
+		for _, ct := range conts {
+			for i := range keys {
+				for j := range keys {
+					if (i+j)%3 != wi%3 && !c.Thorough() {
+						continue // quick tier: a third of the pairs per warmup
+					}
+					if !c.Take() {
+						continue
+					}
+					c.Add("reused_validator_cases", 1)
+					run(ct, keys[i], keys[j])
+				}
+			}
+		}
+	}
+	warmup, warmTag = nil, ""
 	// triples over a sub-alphabet (every third key form)
 	var sub []keyForm
 	for i, k := range keys {
